@@ -210,9 +210,24 @@ def _apply(it, c, fn, args, kwargs, node):
     cx = Ctx(it, run.heap)
     site = f'{it.where()}#call[{c.nested_qualname if c.nested else fn.__qualname__}@L{getattr(node, "lineno", 0)}]'
     it.called_contracts.add(c.name + (' [assumed]' if c.assumed else ''))
+    for v in p.values():
+        # a token standing for an UNKNOWN value of a library type (declared by the contract module that made it) means nothing
+        # to the contracts of other modules: neither "a well-formed argument" nor "a wrong type"
+        if getattr(v, 'opaque_value', False) and not getattr(c, 'accepts_opaque', False) and \
+                getattr(__import__('sys').modules.get(type(c).__module__), type(v).__name__, None) is not type(v):
+            # (a contract module that defines or imports the token class knows it)
+            raise Unsupported(f'{type(v).__name__} token of {type(v).__module__} passed to {c.name}, whose contract does not know it')
     if hasattr(c, 'apply_at'):
         return c.apply_at(cx, p, node, site)
-    pre = c.pre(cx, **p)
+    try:
+        pre = c.pre(cx, **p)
+    except (AttributeError, TypeError, KeyError) as e:
+        raise Unsupported(f'the contract of {c.name} cannot interpret the arguments of this call ({type(e).__name__}: {e})')
+    # a precondition that is CONCRETELY false is a shape mismatch between the caller's abstract values and what the callee's
+    # contract can talk about (e.g. an opaque name token where a component list is expected): not applicable, no verdict.
+    # A violated precondition of the program shows up as a symbolic obligation with a counter-model.
+    if pre is False or (isinstance(pre, dict) and any(t is False for t in pre.values())):
+        raise Unsupported(f'the contract of {c.name} cannot interpret the arguments of this call (precondition is not expressible for them)')
     if isinstance(pre, dict):
         for lab, t in pre.items():
             run.oblige(f'{site}.pre:{lab}', t)
